@@ -103,6 +103,14 @@ func ruleC11_1(c *Ctx, r *Rep) {
 					acc = append(acc, mapAccesses(f, func(v ssa.Value) bool { return loadedFromCell(v, g, "pending") })...)
 				}
 				for i, a := range acc {
+					// a constructor filling the fields of the state struct it has just allocated: nothing shares it yet
+					if st, isSt := a.instr.(*ssa.Store); isSt && f.Parent() == nil {
+						if fa, isFA := st.Addr.(*ssa.FieldAddr); isFA {
+							if al, isAl := fa.X.(*ssa.Alloc); isAl && al.Parent() == f {
+								continue
+							}
+						}
+					}
 					n++
 					held := li.heldAt(a.instr)
 					ok := streamMuHeld(held)
